@@ -723,7 +723,38 @@ func init() {
 					return err
 				}
 			}
+		case "cdc":
+			// content-defined chunkers on small inputs at small widths: neighbouring link nodes with equal child count and
+			// equal byte totals but different child sizes occur for a few percent of the seeds
+			for i := 0; i < *count; i++ {
+				bc := &BuildCase{Fam: "build", ID: fmt.Sprintf("cdc-%d-%d", *seed, i), What: "file", Len: 1024, Chunker: []string{"rabin-16-32-64", "rabin-32-64-128"}[i%2],
+					W: 2 + i%3, Content: "random", Seed: r.Int63(), Ref: true}
+				if err := runBuildCase(bc, tr); err != nil {
+					return err
+				}
+			}
 		case "wide":
+			// link nodes with hundreds of children (their UnixFS Data exceeds 1 KiB)
+			for _, nw := range [][2]int{{256, 256}, {600, 600}, {1024, 1024}, {700, 350}} {
+				if nw[0] > *maxN*4 {
+					continue
+				}
+				bc := &BuildCase{Fam: "build", ID: fmt.Sprintf("fat-%d-%d", nw[0], nw[1]), What: "file", Len: nw[0], Chunker: "size-1", W: nw[1],
+					Content: "random", Seed: int64(nw[0]), Ref: true}
+				if err := runBuildCase(bc, tr); err != nil {
+					return err
+				}
+			}
+			for _, L := range []int{300 * 20000} {
+				if *maxN < 400 {
+					continue
+				}
+				bc := &BuildCase{Fam: "build", ID: fmt.Sprintf("fat16k-%d", L), What: "file", Len: L, Chunker: "size-20000", W: 300,
+					Content: "random", Seed: 5, Ref: true}
+				if err := runBuildCase(bc, tr); err != nil {
+					return err
+				}
+			}
 			// the real default width around its boundaries (one-byte chunks)
 			for _, n := range []int{173, 174, 175, 176, 347, 348, 349, 174*174 - 1, 174 * 174, 174*174 + 1} {
 				if n > *maxN {
